@@ -50,7 +50,9 @@ class Ctx:
 
 
 def load_findings(pid):
-    path = os.path.join(ROOT, "known_findings.json")
+    """known findings are committed per property in findings/<pid>.json (read-only at run time);
+    known_findings.json at the top level is the generated aggregate of those files"""
+    path = os.path.join(ROOT, "findings", "%s.json" % pid)
     if not os.path.exists(path):
         return []
     with open(path) as f:
@@ -187,6 +189,9 @@ def main(argv=None):
         return 2
     meta = mod.META
     ctx = Ctx(pid, tier, seed)
+    import mitmproxy
+
+    print("[%s] mitmproxy under test: %s" % (pid, os.path.dirname(mitmproxy.__file__)), flush=True)
 
     if args.replay:
         with open(args.replay) as f:
